@@ -33,8 +33,11 @@ def names():
 def build(node, H, salt: int, eolstr: str, strip_meta=False):
     """gamma: abstract node -> real object (None for a stripped metadata node)."""
     k, i = node["k"], node["id"]
+    if k == "E":
+        return "" if (i + salt) % 2 == 0 else H.HTML("")
     if k in ("T", "H", "R"):
-        tail = "".join(eolstr if t[0] == "eol" else ("  " if t[0] == "ind" else f"{L}{t[1]}{R}") for t in node.get("tail", []))
+        tail = "".join(eolstr if t[0] == "eol" else ("  " if t[0] == "ind" else "\n" if t[0] == "nl" else f"{L}{t[1]}{R}")
+                       for t in node.get("tail", []))
         payload = f"{L}{i}{R}{tail}"
         if k == "T":
             return payload
@@ -87,6 +90,11 @@ def scan(out: str, eolstr: str):
         if out.startswith("  ", i):
             toks.append(["ind", 0])
             i += 2
+            continue
+        if out[i] == "\n":
+            # a line feed that is not (part of) the eol string in use: content, never layout
+            toks.append(["nl", 0])
+            i += 1
             continue
         m = _OPEN.match(out, i)
         if m:
@@ -175,9 +183,9 @@ class _LayoutBase(Prop):
             if root:
                 k = rnd.choice("BBIVWL")
             elif depth >= maxdepth or counter[0] >= maxnodes:
-                k = rnd.choice("THRMTTVW")
+                k = rnd.choice("THRMTTVWE")
             else:
-                k = rnd.choice("BBBIIIVWTTTHRM")
+                k = rnd.choice("BBBIIIVWTTTHRME")
             nd = {"k": k, "id": i, "c": [], "tail": []}
             if k in "BIVWL":
                 if k in "VW" and rnd.random() < 0.7 and not root:
@@ -192,7 +200,8 @@ class _LayoutBase(Prop):
                 # content that itself contains line breaks / spaces: at its end, or in the middle (continuation leaf)
                 nd["tail"] = rnd.choice([[["eol", 0]], [["eol", 0], ["ind", 0]], [["ind", 0]],
                                          [["eol", 0], ["ind", 0], ["ind", 0]], [["eol", 0], ["eol", 0]],
-                                         [["eol", 0], ["leaf", i]], [["eol", 0], ["ind", 0], ["leaf", i], ["eol", 0], ["leaf", i]]])
+                                         [["eol", 0], ["leaf", i]], [["eol", 0], ["ind", 0], ["leaf", i], ["eol", 0], ["leaf", i]],
+                                         [["nl", 0]], [["nl", 0], ["leaf", i]], [["nl", 0], ["ind", 0], ["leaf", i], ["nl", 0]]])
             return nd
         return node(1, root=True)
 
@@ -204,6 +213,10 @@ class _LayoutBase(Prop):
             eol = rnd.choice(self.EOLS)
             if any(tk[0] == "eol" for nd in _walk(t) for tk in nd["tail"]) and eol == "":
                 eol = "\n"
+            if any(tk[0] == "nl" for nd in _walk(t) for tk in nd["tail"]) and eol.startswith("\n"):
+                # a bare line feed in the content is only distinguishable from layout when eol is something else
+                has_eol_tail = any(tk[0] == "eol" for nd in _walk(t) for tk in nd["tail"])
+                eol = rnd.choice(["\r\n", "\ue003", " | ", "\t"] + ([] if has_eol_tail else [""]))
             gens.append({"kind": "render", "tree": t, "indent": rnd.randint(0, 5), "eol": eol,
                          "addws": (rnd.random() < 0.8) if t["k"] == "L" else True, "salt": rnd.randrange(1000)})
         return gens
